@@ -211,6 +211,18 @@ def build(t):
     elif arm == "reencoded":
         z1, z2 = B.compress_g2(S)
         k = b % 6
+        if k == 0:
+            # x_im + p only fits in 381 bits for about 19 % of the signatures: walk to a neighbouring key
+            # whose signature admits it (and whose sign flag is the one asked for), so that this
+            # re-encoding is exercised with both flag values and not only when luck has it
+            want_flag = (a >> 3) & 1
+            for _ in range(60):
+                if (z1 & B.MASK381) + P < (1 << 381) and bool(z1 & B.A_BIT) == bool(want_flag):
+                    break
+                sk = sk + 1 if sk + 1 < R else 1
+                dst, m = core_context(suite, entry, sk, msg)
+                S = B.g2_mul(blssig.hash_point(m, dst), sk)
+                z1, z2 = B.compress_g2(S)
         if k == 0 and (z1 & B.MASK381) + P < (1 << 381):
             z1 += P
         elif k == 1 or k == 0:
